@@ -111,6 +111,25 @@ def milp_exact(c, A, b, integers, minimize=True, box=None):
     ints = sorted(set(integers))
     cont = [j for j in range(n) if j not in ints]
     best = None
+    if not cont and all(isinstance(v, int) for v in c) and all(isinstance(v, int) for v in b) and all(
+            isinstance(v, int) for r in A for v in r):
+        # pure integer program with integer data: plain int arithmetic (same enumeration, much faster)
+        m = len(A)
+        for vals in product(*[range(box[j][0], box[j][1] + 1) for j in ints]):
+            ok = True
+            for i in range(m):
+                row = A[i]
+                if sum(row[j] * vals[j] for j in range(n)) > b[i]:
+                    ok = False
+                    break
+            if not ok:
+                continue
+            obj = sum(c[j] * vals[j] for j in range(n))
+            if best is None or (obj < best[1] if minimize else obj > best[1]):
+                best = ([F(v) for v in vals], F(obj))
+        if best is None:
+            return ("infeasible", None, None)
+        return ("optimal", best[0], best[1])
     for vals in product(*[range(box[j][0], box[j][1] + 1) for j in ints]):
         fixed = dict(zip(ints, vals))
         # reduce rows
